@@ -208,6 +208,8 @@ func (*c20) Oracle(ci, oi any) []hx.Violation {
 		vs = append(vs, c20OracleChart(c.Chart, obs)...)
 	case "manifest":
 		vs = append(vs, c20OracleManifest(c.Manifest, obs)...)
+	case "strvals":
+		vs = append(vs, c20OracleStrvals(c.Strvals, obs)...)
 	}
 	return vs
 }
